@@ -99,7 +99,7 @@ def minimise(ctx, binp, c, kind):
         r = evaluate(ctx, out)
         return r is not None and bool(r[0] if kind == "model" else r[1])
     cur = json.loads(json.dumps(strip(c)))
-    budget = 12
+    budget = 6
     changed = True
     while changed and budget > 0:
         changed = False
@@ -155,7 +155,7 @@ def run(ctx):
             break
         kind = "ref" if i in bad_ref else "model"
         c = cases[i]
-        small = minimise(ctx, binp, c, kind) if reported < 2 else strip(c)
+        small = minimise(ctx, binp, c, kind) if reported < 1 else strip(c)
         out = rerun(ctx, binp, [small])
         ctx.violation({"case": small, "impl_observed": out[0]["obs"] if out else c["obs"],
                        "disagrees_with": "reference: removal of the local copy without enough confirmed holders / LOCK-LINK removed / "
